@@ -24,6 +24,9 @@ Definition mon_quiescent_clean (nres nlive ndropped marker rdv_r rdv_b : N) : bo
 Definition mon_probe (recl : N) (ok : bool) : N :=
   if ok then 0 else if recl =? 0 then 0 else if recl =? 1 then 1 else 2.
 
+(** after the sweeper has run until it finds nothing to do: no dropped exchange slot is left *)
+Definition mon_swept (ndropped : N) : bool := ndropped =? 0.
+
 (** the rendezvous slot after every requester is gone *)
 Definition mon_rdv_end (slot : N) : bool := slot =? 0.
 
